@@ -58,7 +58,8 @@ def build(inst, dep, n):
     comps = list(inst["vars"])
     for i, a in enumerate(names):
         routes = {names[j]: dep["route"][i][j] for j in range(len(names)) if j != i and (i + j + n) % 3}
-        hosting = {comps[c]: dep["hosting"][i][c] for c in range(len(comps)) if dep["hosting"][i][c]}
+        # zero costs are written explicitly for a third of the (agent, computation) pairs: with a non-zero default they mean something
+        hosting = {comps[c]: dep["hosting"][i][c] for c in range(len(comps)) if dep["hosting"][i][c] or (i + c + n) % 3 == 0}
         dcop.add_agents([AgentDef(a, capacity=dep["cap"][i], default_route=1, routes=routes, default_hosting_cost=0 if dep["k"] == 1 else 4, hosting_costs=hosting)])
     return dcop, vars_
 
